@@ -626,42 +626,35 @@ def run(ctx):
             continue
         hashes = {blockc[0]["names"][i - 1]: h for h, i in block[0]["records"]}
         names, dels = blockc[1]["names"], blockc[1]["dels"]
-        recs = []
-        for i, n in enumerate(names):       # insertRecordSorted
-            r = (hashes[n], i + 1)
-            pos = next((j for j, x in enumerate(recs) if x[0] >= r[0]), len(recs))
-            recs.insert(pos, r)
-        exp_ops = []
-        for n in dels:                      # remove the first record with an equal hash
-            j = next((j for j, x in enumerate(recs) if x[0] == hashes[n]), None)
-            if j is None or (n == "" and blockc[1] is None):
-                exp_ops.append("err")
-            else:
-                exp_ops.append("ok")
-                recs.pop(j)
+        def build():
+            recs, ins = [], []
+            for i, n in enumerate(names):       # InsertRecord: an existing key is refused, else insertRecordSorted
+                r = (hashes[n], i + 1)
+                if any(x[0] == r[0] for x in recs):
+                    ins.append("err")
+                    continue
+                pos = next((j for j, x in enumerate(recs) if x[0] >= r[0]), len(recs))
+                recs.insert(pos, r)
+                ins.append("ok")
+            return recs, ins
+
+        def spec(dense):
+            recs, ins = build()
+            eo = []
+            for n in dels:                      # remove the first record with an equal hash
+                # DeleteDenseAttribute rejects the empty name before looking at the tree
+                j = None if (dense and n == "") else next((j for j, x in enumerate(recs) if x[0] == hashes[n]), None)
+                eo.append("err" if j is None else "ok")
+                if j is not None:
+                    recs.pop(j)
+            return ins, eo, [list(x) for x in recs]
         del_ops += len(dels) * 6
         for c, r in zip(blockc[1:], block[1:]):
-            eo = exp_ops
-            if c["entry"].startswith("dense") and "" in dels:
-                # DeleteDenseAttribute rejects the empty name before looking at the tree
-                rr, eo = [], []
-                recs2 = []
-                for i, n in enumerate(names):
-                    x = (hashes[n], i + 1)
-                    pos = next((j for j, y in enumerate(recs2) if y[0] >= x[0]), len(recs2))
-                    recs2.insert(pos, x)
-                for n in dels:
-                    j = None if n == "" else next((j for j, y in enumerate(recs2) if y[0] == hashes[n]), None)
-                    eo.append("err" if j is None else "ok")
-                    if j is not None:
-                        recs2.pop(j)
-                want = [list(x) for x in recs2]
-            else:
-                want = [list(x) for x in recs]
-            if r["ops"] != eo or r["records"] != want:
+            ins, eo, want = spec(c["entry"].startswith("dense"))
+            if r["ops"] != eo or r["records"] != want or r["ins"] != ins:
                 viol.append(dict(what="delete entry point %r leaves records different from 'remove the first record with an equal hash' "
                                       "(the entry point is what the rebalancing configuration selects)" % c["entry"],
-                                 failing_input=c, impl=r, spec=dict(ops=eo, records=want), plain=block[1]))
+                                 failing_input=c, impl=r, spec=dict(ins=ins, ops=eo, records=want), plain=block[1]))
                 break
     samples.append(dict(part="A/c19del", case=dcases[3], result=dres[3]))
 
